@@ -50,3 +50,34 @@ func zzC16_udp_wiring() {
 	}
 	symAssert(calls[0].done && calls[1].done && calls[0].err == nil && calls[1].err == nil, "both requests complete once answered")
 }
+
+// the deregistration request that Observation.Cancel sends is a client request like any other: with a total limit
+// of 1 it waits while another request is in flight
+func zzC16_udp_cancel_wiring() {
+	s := zzNewSession()
+	cc := zzNewConn(s, zzConnCfg{midSeed: 1000, nstart: 4, maxRetrans: 4, ackTimeout: 1 << 30, limit: 1, eplimit: 1})
+	symSetNow(time.Unix(0, 1<<41))
+	obs := zzRegisterObservation(cc, s, message.Token{0x0B, 0x5E})
+	symAssert(obs != nil, "the observation is registered")
+	if obs == nil {
+		return
+	}
+	base := len(s.written)
+	a := &zzCall{token: message.Token{0xA1}}
+	go zzDo(cc, a)
+	zzWaitWritten(s, base+1)
+	symIdle()
+	cdone := false
+	go func() {
+		_ = obs.Cancel(context.Background())
+		cdone = true
+	}()
+	symIdle()
+	symAssert(len(s.written) == base+1 && !cdone, "with a total limit of 1 the cancellation's request waits while another request is in flight")
+	symCover("cancel-waits")
+	zzAnswer(cc, s.written[base], 1, 0, 1)
+	symWaitUntil(func() bool { return a.done })
+	zzWaitWritten(s, base+2)
+	zzAnswer(cc, s.written[base+1], 2, 0, 1)
+	symWaitUntil(func() bool { return cdone })
+}
